@@ -16,10 +16,12 @@ class Obligation:
         self.queries = 0; self.unsat = 0; self.sat = 0; self.unknown = 0
         self.detail = None; self.role = None; self.replay = None; self.sample = None
         self.reach = 0                # reachability witnesses (anchor events seen on feasible paths)
+        self.t_start = time.time(); self.wall = None
 
     def as_dict(self):
         d = {'id': self.id, 'desc': self.desc, 'status': self.status, 'functions': self.functions,
-             'queries': self.queries, 'unsat': self.unsat, 'sat': self.sat, 'reach_witnesses': self.reach}
+             'queries': self.queries, 'unsat': self.unsat, 'sat': self.sat, 'reach_witnesses': self.reach,
+             'wall_s': round(self.wall, 2) if self.wall is not None else None}
         if self.detail:
             d['detail'] = self.detail
         if self.role:
@@ -118,6 +120,9 @@ class Ctx:
         return r, (s.model() if r == z3.sat else None)
 
     def ob(self, oid, desc, functions=()):
+        now = time.time()
+        if self.obligations and self.obligations[-1].wall is None:
+            self.obligations[-1].wall = now - self.obligations[-1].t_start
         o = Obligation(oid, desc, functions)
         self.obligations.append(o)
         return o
@@ -191,6 +196,8 @@ class Ctx:
     # ---------------- finish
     def finish(self, level='model_checking'):
         wall = time.time() - self.t0
+        if self.obligations and self.obligations[-1].wall is None:
+            self.obligations[-1].wall = time.time() - self.obligations[-1].t_start
         n_ob = len(self.obligations)
         discharged = sum(1 for o in self.obligations if o.status == 'discharged')
         undecided = [o.id for o in self.obligations if o.status == 'undecided']
